@@ -3,7 +3,7 @@
    Everything is parametric in the commands ([cstate], [exists_cmd], [cmd]) and in the external
    halt oracle [ext]: the statements hold for every command behaviour. *)
 From stdpp Require Import gmap.
-Require Import DS.Base DS.Runner DS.RunnerSpec DS.RunnerProof.
+Require Import DS.Base DS.Runner DS.RunnerSpec DS.RunnerProof DS.RunnerScripted DS.RunnerExamples.
 Local Open Scope nat_scope.
 
 Section C03.
@@ -70,3 +70,11 @@ Theorem C03_error_reported : forall prog c i s k e w',
   end.
 Proof. exact (error_reported cstate exists_cmd cmd ext). Qed.
 End C03.
+
+(* non-vacuity: a three-line program whose abstract run visits indices 0 1 2 1 2 (duplicate label,
+   later line wins), reports the error at index 1 to on_error, and fails with exit code 3 carrying
+   source line 3 *)
+Theorem C03_nonvacuous :
+  exists t, spec_program sstate s_exists s_cmd_run (fun _ => false) ex_prog ex_world
+              (FErr (RExitCode 3) (Meta (Some 3) None)) t /\ ex_pcs t = [0; 1; 2; 1; 2]%nat.
+Proof. exact ex_spec_run. Qed.
